@@ -368,3 +368,93 @@ def run_sess_evt(run, P, only=None):
             return None
         ctx = solve(f, Env(), on_event, None, keys, R)
         run.stats['session_solver_steps'] += ctx.steps
+
+
+# ---------------------------------------------------------------------------------------------------------------
+GATED_FREE = 'coap_free_endpoint_lkd'     # frees only the sessions whose reference count is 0
+TEARDOWN = 'coap_free_context_lkd'
+
+
+def run_teardown(run, P):
+    """R-TEARDOWN: coap_free_endpoint_lkd() frees a server session only when nothing references it (`ref == 0`, the
+    assert is compiled out).  So in the context destructor every call that drains a collection of reference holders
+    (computed: call closure contains a release of a holder's session field, see R-REF-HOLD) has to come before the
+    first coap_free_endpoint_lkd() on every path -- a holder drained later leaves its session unfreed and without its
+    SERVER_SESSION_DEL event."""
+    run.rule('R-TEARDOWN')
+    if not (P.has(TEARDOWN) and P.has(GATED_FREE)):
+        if run.fixture_mode:
+            return
+        run.require(False, 'R-TEARDOWN anchors %s()/%s() not found' % (TEARDOWN, GATED_FREE))
+    H, _ = holders(P)
+    # (1) the gate exists: the endpoint destructor frees sessions under a `ref == 0` test
+    g = P.func(GATED_FREE)
+    gated = False
+    for b in g['blocks']:
+        c = (b.get('term') or {}).get('cond')
+        if c is None:
+            continue
+        for n in walk(c):
+            if isinstance(n, dict) and n.get('k') == 'bin' and n.get('op') in ('==', '!=') and const_int(n['r']) == 0:
+                l = strip(n['l'])
+                if isinstance(l, dict) and l.get('k') == 'mem' and l.get('f') == 'ref':
+                    gated = True
+    run.notes.append('R-TEARDOWN: %s() %s sessions on ref == 0' % (GATED_FREE, 'gates' if gated else 'does NOT gate'))
+    if not gated:
+        run.instance('R-TEARDOWN', 'no ref gate in %s(): ordering carries no obligation' % GATED_FREE)
+        run.oblige('R-TEARDOWN', True, 'ungated')
+        return
+    # (2) releasers of holder fields and the call closure above them
+    releasers = set()
+    for f in P.funcs.values():
+        for b, ev in P.events(f):
+            t = ev['e']
+            if t.get('k') == 'call' and t.get('fn') == REL and t.get('a'):
+                a = strip(t['a'][0])
+                if isinstance(a, dict) and a.get('k') == 'mem' and a.get('rec') in H and a.get('f') in H[a['rec']]:
+                    releasers.add(f['name'])
+    run.require(bool(releasers) or not H, 'R-TEARDOWN: holder types exist but no function releases a holder field')
+    cg = P.callgraph()
+    reach = set(releasers)
+    changed = True
+    while changed:
+        changed = False
+        for fn, cs in cg.items():
+            if fn in (REL, 'coap_session_free', 'coap_session_release', GATED_FREE):
+                continue      # tearing down one session (its own nodes) is not a drain of the context's holders
+            if fn not in reach and any(c in reach for c in cs):
+                reach.add(fn)
+                changed = True
+    f = P.func(TEARDOWN)
+    n = [0, 0]
+
+    def is_rule_event(ev):
+        t = ev['e']
+        return t.get('k') == 'call' and (t.get('fn') == GATED_FREE or (t.get('fn') in reach and t.get('fn') != GATED_FREE))
+    keys, R = relevance(f, is_rule_event)
+
+    def on_event(ev, env, ctx):
+        t = ev['e']
+        if t.get('k') != 'call':
+            return None
+        fn = t.get('fn')
+        if fn == GATED_FREE:
+            n[0] += 1
+            e = env.copy()
+            e.ts['ep'] = 1
+            return [apply_generic(ev, e, R)]
+        if fn in reach:
+            n[1] += 1
+            run.instance('R-TEARDOWN', '%s: holder drain %s()' % (TEARDOWN, fn))
+            ok = not env.ts.get('ep')
+            run.oblige('R-TEARDOWN', ok, 'drain-before-endpoints:%s' % fn)
+            if not ok:
+                run.violation('R-TEARDOWN', TEARDOWN, ev['loc'], 'drain-after-endpoint-free:%s' % fn,
+                              '%s() releases session references held by %s only after %s() has run: sessions still referenced at that '
+                              'point were skipped there (ref != 0), are never freed and never get SERVER_SESSION_DEL' %
+                              (fn, '/'.join(sorted(H)), GATED_FREE), ctx.path())
+        return None
+    ctx = solve(f, Env({'ep': 0}), on_event, None, keys, R, key_fn=lambda e: e.ts.get('ep'))
+    run.stats['teardown_solver_steps'] += ctx.steps
+    run.require(n[0] > 0, 'R-TEARDOWN: %s() does not call %s()' % (TEARDOWN, GATED_FREE))
+    run.require(n[1] >= 2, 'R-TEARDOWN: fewer than 2 holder drains found in %s()' % TEARDOWN)
